@@ -139,15 +139,23 @@ Definition cntD (id : N) (l : list obs) : N := cnt (Disconnect id) l.
    authentication reached the server: 0 = certainly not, 1 = certainly,
    2 = cut too close to tell; and the policy's answer for that attempt. *)
 Record spec := mkSpec { sp_auth : N; sp_allow : bool }.
-Definition input := list spec.
+Definition scen := list spec.
 
 (* the access-control callback log of the run, oldest first, after every client
    is gone and the server has shut down: (kind, id, allow) with kind 1 =
    on_connect (allow = its answer), 2 = on_disconnect for an id whose on_connect
    was seen with the same endpoint id, 3 = on_disconnect that matches no on_connect *)
-Definition output := list (N * N * bool).
+Definition olog := list (N * N * bool).
 
-Definition conv (l : list obs) : output :=
+(* Second case kind: [threads] OS threads, released together, each draw [per]
+   connection ids from the real allocator (ConnectionId::next through
+   ClientRequest::new / OnDisconnectGuard::empty); one id is drawn before the
+   threads are released and one after all have joined.  Observed: those two ids
+   and every thread's ids in the order drawn. *)
+Inductive input := IScen (l : scen) | IAlloc (threads per : N).
+Inductive output := OLog (l : olog) | OAlloc (before after : N) (seqs : list (list N)).
+
+Definition conv (l : list obs) : olog :=
   map (fun o => match o with Connect id a => (1, id, a) | Disconnect id => (2, id, false) end) (rev l).
 
 (* canonical schedule: the attempts one after the other, no fault after authentication *)
@@ -158,39 +166,87 @@ Definition canon_conn (k : nat) (sp : spec) : list ev :=
              EActorEnd k StreamEnd; EUnregister k]
        else [EHandshake k true; EOnConnect k false; EDenyWrite k true].
 
-Fixpoint canon (k : nat) (i : input) : list ev :=
+Fixpoint canon (k : nat) (i : scen) : list ev :=
   match i with
   | [] => []
   | sp :: r => canon_conn k sp ++ canon (S k) r
   end.
 
-Definition model (i : input) : output :=
+Definition model_scen (i : scen) : olog :=
   match run (init 0) (canon 0 i) with Some s => conv (log s) | None => [] end.
 
-Definition ocntC (id : N) (o : output) : N :=
+(* ---- concurrent allocation: the counter part of [step]'s `EHandshake _ true` case
+   (one atomic fetch_add per draw), for an arbitrary schedule = list of thread numbers,
+   one entry per draw.  [aseq t] = the ids thread t drew, oldest first. *)
+Record ast := mkA { anext : N; aseq : nat -> list N }.
+Definition astep (s : ast) (t : nat) : ast :=
+  mkA (anext s + 1) (fun j => if Nat.eqb j t then aseq s j ++ [anext s] else aseq s j).
+Fixpoint arun (s : ast) (sched : list nat) : ast :=
+  match sched with [] => s | t :: r => arun (astep s t) r end.
+(* the id [n0] is drawn before the threads start, the threads run [sched], one id is drawn after *)
+Definition aout (n0 : N) (threads : nat) (sched : list nat) : output :=
+  let s := arun (mkA (n0 + 1) (fun _ => [])) sched in
+  OAlloc n0 (anext s) (map (aseq s) (seq 0 threads)).
+(* canonical schedule: thread 0 draws all its ids, then thread 1, ... *)
+Definition canon_sched (threads per : nat) : list nat :=
+  concat (map (fun t => repeat t per) (seq 0 threads)).
+
+Definition model (i : input) : output :=
+  match i with
+  | IScen l => OLog (model_scen l)
+  | IAlloc threads per => aout 0 (N.to_nat threads) (canon_sched (N.to_nat threads) (N.to_nat per))
+  end.
+
+Fixpoint incr (l : list N) : bool :=
+  match l with
+  | a :: (b :: _) as r => (a <? b) && incr r
+  | _ => true
+  end.
+Fixpoint nodupb (l : list N) : bool :=
+  match l with
+  | [] => true
+  | a :: r => negb (existsb (N.eqb a) r) && nodupb r
+  end.
+(* connection ids are never reused: all ids drawn (before, after, by any thread) are
+   pairwise distinct, and every thread sees its own ids strictly increasing *)
+Definition monitor_alloc (before after : N) (seqs : list (list N)) : bool :=
+  forallb incr seqs && nodupb (before :: after :: concat seqs).
+(* what one-atomic-step allocation gives under every interleaving (nobody else draws
+   meanwhile): every thread got its [per] ids, all lie strictly between the two
+   bracketing ids, and the counter advanced by exactly the number of draws *)
+Definition agree_alloc (threads per before after : N) (seqs : list (list N)) : bool :=
+  (len seqs =? threads) && forallb (fun q => len q =? per) seqs &&
+  forallb (fun x => (before <? x) && (x <? after)) (concat seqs) &&
+  (after =? before + threads * per + 1) && monitor_alloc before after seqs.
+
+Definition ocntC (id : N) (o : olog) : N :=
   len (filter (fun e : N * N * bool => match e with (k, i, _) => (k =? 1) && (i =? id) end) o).
-Definition ocntD (id : N) (o : output) : N :=
+Definition ocntD (id : N) (o : olog) : N :=
   len (filter (fun e : N * N * bool => match e with (k, i, _) => (k =? 2) && (i =? id) end) o).
 
 (* The property on an observed, settled log: every on_connect has a fresh id;
    an admitted id is disconnected exactly once, a denied id never; every
    on_disconnect belongs to an admitted on_connect of the same endpoint. *)
-Definition monitor_o (o : output) : bool :=
+Definition monitor_o (o : olog) : bool :=
   forallb (fun e : N * N * bool =>
     match e with
     | (1, id, a) => (ocntC id o =? 1) && (ocntD id o =? (if a then 1 else 0))
     | (2, id, _) => existsb (fun x : N * N * bool => match x with (k, i, a) => (k =? 1) && (i =? id) && a end) o
     | _ => false
     end) o.
-Definition monitor (i : input) (o : output) : bool := monitor_o o.
+Definition monitor (i : input) (o : output) : bool :=
+  match o with
+  | OLog l => monitor_o l
+  | OAlloc b a seqs => monitor_alloc b a seqs
+  end.
 
 (* Admissible outputs for a scenario: the number of on_connect calls lies
    between the number of attempts whose authentication certainly arrived and
    that number plus the uncertain ones; the number of Allow / Deny answers
    cannot exceed the attempts that could get them; and the log has the shape
    every settled run of the transition system has (monitor_o). *)
-Definition count_specs (f : spec -> bool) (i : input) : N := len (filter f i).
-Definition agree (i : input) (o : output) : bool :=
+Definition count_specs (f : spec -> bool) (i : scen) : N := len (filter f i).
+Definition agree_scen (i : scen) (o : olog) : bool :=
   let nC := len (filter (fun e : N * N * bool => match e with (k, _, _) => k =? 1 end) o) in
   let nA := len (filter (fun e : N * N * bool => match e with (k, _, a) => (k =? 1) && a end) o) in
   let nD := len (filter (fun e : N * N * bool => match e with (k, _, a) => (k =? 1) && negb a end) o) in
@@ -200,15 +256,27 @@ Definition agree (i : input) (o : output) : bool :=
   (must sp_allow <=? nA) && (nA <=? may sp_allow) &&
   (must (fun s => negb (sp_allow s)) <=? nD) && (nD <=? may (fun s => negb (sp_allow s))) &&
   monitor_o o.
+Definition agree (i : input) (o : output) : bool :=
+  match i, o with
+  | IScen l, OLog o => agree_scen l o
+  | IAlloc threads per, OAlloc b a seqs => agree_alloc threads per b a seqs
+  | _, _ => false
+  end.
 
 Definition known (i : input) : N := 0.
 
 (* 0 = nothing reached the policy; otherwise bit 1 = some allowed attempt,
-   bit 2 = some denied attempt, bit 4 = some uncertain cut *)
-Definition tag (i : input) : N :=
+   bit 2 = some denied attempt, bit 4 = some uncertain cut; 8 = concurrent allocation
+   (0 when a single thread or no draws) *)
+Definition tag_scen (i : scen) : N :=
   (if existsb (fun s => negb (sp_auth s =? 0) && sp_allow s) i then 1 else 0) +
   (if existsb (fun s => negb (sp_auth s =? 0) && negb (sp_allow s)) i then 2 else 0) +
   (if existsb (fun s => sp_auth s =? 2) i then 4 else 0).
+Definition tag (i : input) : N :=
+  match i with
+  | IScen l => tag_scen l
+  | IAlloc threads per => if (2 <=? threads) && (1 <=? per) then 8 else 0
+  end.
 
 Definition judge (i : input) (o : output) : bool * bool * N * N :=
   (agree i o, monitor i o, known i, tag i).
